@@ -1,5 +1,5 @@
 from .. import common, mir
-from ..rules import c07, c11, c12
+from ..rules import c07, c11, c12, c11_r3
 
 
 def run(tier, replay=None):
@@ -14,4 +14,10 @@ def run(tier, replay=None):
         c07.run_threshold(rep, crate, cfg)
         c11.run_gating(rep, crate, cfg)
         c11.run_dispatch(rep, crate, cfg)
+        c07.run_constructors(rep, crate, cfg)
+        # every CPU path computes the same function: exact cover of the buffers and per-operation templates (C11-R2/R3)
+        sub = common.Report("C12", tier)
+        logs = c12.run(sub, crate, cfg)
+        c11.run_cover(rep, crate, cfg, logs)
+        c11_r3.run(rep, crate, cfg)
     return rep.finish("other", "configuration independence: structural preconditions", "./check C07 %s" % tier)
